@@ -928,6 +928,17 @@ def family_c05(tier, seed):
         ("p:join-sel-then", [From("t"), Select("a", "b"), J()]),
         ("p:join-sel-sub", [From("t"), Select("a", "b"), Join([From("u"), Select("a", "b")], "==a")]),
         ("p:join-sel-sub-alias", [From("t"), Select("a", "b"), Join([From("u"), Select("a", "b")], "==a", alias="w")]),
+        ("p:star-col-computed", [From("t"), Derive(y=b + 1), Select("b", "y", Star("t"))]),
+        ("p:star-col-computed2", [From("t"), Derive(y=b + 1, z=a - c), Select("c", "y", "a", "z", Star("t"))]),
+        ("p:star-two-rels", [From("t"), J(), Select("t.b", Star("u"), Star("t"))]),
+        ("p:star-two-rels-left", [From("t"), J("left"), Select("u.b", "t.c", Star("u"), Star("t"))]),
+        ("p:star-first", [From("t"), Derive(y=b + 1), Select(Star("t"), "y")]),
+        ("p:star-col", [From("t"), Select("a", Star("t"))]),
+        ("p:star-mid", [From("t"), Derive(y=b + 1), Select("y", Star("t"), "b")]),
+        ("p:star-known", [From("t"), Select("a", "b", "c"), Derive(y=b + 1), Select("b", "y", Star("t"))]),
+        ("p:star-known-two", [From("t"), Select("a", "b", "c"), Join([From("u"), Select("a", "b")], "==a"), Select("t.b", Star("u"), Star("t"))]),
+        ("p:star-sort-take", [From("t"), Derive(y=b + 1), Select("b", "y", Star("t")), Sort("y"), Take(1)]),
+        ("p:star-filter-split", [From("t"), Derive(y=b + 1), Select("c", "y", Star("t")), Filter(C("y") > 0), Derive(z=C("y") * 2)]),
         ("p:wild-excl", [From("t"), SelectNot("b")]),
         ("p:wild-excl2", [From("t"), SelectNot("a", "c")]),
         ("p:join-wild-excl-left", [From("t"), J(), SelectNot("t.b")]),
